@@ -261,6 +261,10 @@ def d6_outcome_origin(chk, F):
                 if rv.get("k") == "agg" and rv.get("agg") == "tuple" and len(rv["ops"]) == 2:
                     e = resolve(g, rv["ops"][1])
                     pure = not any(x[0] in ("call", "agg", "bin", "phi", "const") for x in walk(e)) and any(l.startswith("param:") for l in leaves(e))
+                    # fused form `let (c, o) = component.scale(target); ..; (c, o)`: the outcome half of the Scale::scale result itself
+                    if not pure and e[0] == "place" and tuple(p for p in e[2] if p != "*") == (".1",) and e[1][0] == "call" and \
+                            e[1][1].endswith("scale::Scale>::scale"):
+                        pure = True
                     chk.expect(pure, R, f"{g.key.rsplit('::', 1)[-1]}|outcome", f"{g.file}:{st.get('line')}",
                                f"the outcome paired with a scaled component is {full(e)[:100]}, not the outcome its Scale::scale returned: the reported case no longer "
                                "names what happened to the amount", sample=f"{g.file}:{st.get('line')}: outcome passed through unchanged")
